@@ -285,6 +285,16 @@ def _grid_job(job):
                     if other.get('structure'):
                         other['structure'] = [[e[0], ([v + 13 for v in e[1]] if isinstance(e[1], list) and not isinstance(e[1][0], list) else e[1])] for e in other['structure']]
                     safe(call_generate, other, inst)
+                    if not c.get('structure') and not c.get('random_values') and c['cardinality'] >= 2:
+                        # ... and one over value lists of the same LENGTH but another spacing
+                        spaced = dict(c, structure=[[list(range(c['n_features'])), [v * 37 for v in range(c['cardinality'])]]])
+                        safe(call_generate, spaced, inst)
+            if not c.get('structure') and not c.get('random_values') and c['cardinality'] >= 2:
+                # a generator object that FIRST produced a data set over value lists of the same length but another spacing
+                inst2 = gen_cls()()
+                safe(call_generate, dict(c, structure=[[list(range(c['n_features'])), [v * 37 for v in range(c['cardinality'])]]]), inst2)
+                okk, Xk = safe(call_generate, c, inst2)
+                seq.append(Xk if okk else None)
             if any(x is None or not np.array_equal(x, X) for x in seq):
                 st.violation({'kind': 'grid', 'cfg': c, 'same_instance': True}, f'repeated generate_data calls on one generator instance with the same seed and arguments differ from the first data set ({c})',
                              {'kind': 'not_reproducible_same_instance'})
